@@ -289,6 +289,23 @@ def families():
         ("s44", 3, lambda: shape_((4, 4))),
         ("s05", 4, lambda: shape_((0, 5))),
     ]
+    # values of DIFFERENT coordinate-pair classes (plain tuples are not odc-geo value objects and are left out) with the same or swapped numbers: no expectation
+    # about which of them compare equal (id None), only coherence: symmetric ==, != consistent, equal => equal hash
+    # whenever both are hashable, unequal => different token, transitivity
+    F["XYmixed"] = [
+        ("m-xy32", None, lambda: xy_(3, 2)),
+        ("m-xy32f", None, lambda: xy_(3.0, 2.0)),
+        ("m-ixy32", None, lambda: ixy_(3, 2)),
+        ("m-shape-x3y2", None, lambda: shape_((2, 3))),
+        ("m-wh32", None, lambda: wh_(3, 2)),
+        ("m-res32", None, lambda: resxy_(3, 2)),
+        ("m-ixy23", None, lambda: ixy_(2, 3)),
+        ("m-shape-x2y3", None, lambda: shape_((3, 2))),
+        ("m-xy33", None, lambda: xy_(3, 3)),
+        ("m-ixy33", None, lambda: ixy_(3, 3)),
+        ("m-shape33", None, lambda: shape_((3, 3))),
+        ("m-res33", None, lambda: res_(3)),
+    ]
     G = GridSpec
     F["GridSpec"] = [
         ("gs", 1, lambda: G("EPSG:3577", (100, 100), 10)),
@@ -369,17 +386,20 @@ def run_pair(case):
     t, i, j = case
     (la, ia, ba), (lb, ib, bb) = fam()[t][i], fam()[t][j]
     a, b = ba(), bb()
+    free = ia is None or ib is None  # no expectation about equality, coherence only
     same = ia == ib
-    r = R(outcome=f"{t}:{'same' if same else 'diff'}", nontrivial=i != j)
+    r = R(outcome=f"{t}:{'free' if free else 'same' if same else 'diff'}", nontrivial=i != j)
     what = f"{t}: {la} vs {lb}"
     e_ab, e_ba = _eq(a, b), _eq(b, a)
     if e_ab != e_ba:
         r.fail(f"eq:asymmetric:{t}:{la}~{lb}", f"{what}: a==b is {e_ab}, b==a is {e_ba}")
     if (a != b) == e_ab:
         r.fail(f"ne:inconsistent:{t}", f"{what}: a==b {e_ab} and a!=b {a != b}")
-    if same and not e_ab:
+    if free:
+        r.outcome += f":{'eq' if e_ab else 'ne'}"
+    elif same and not e_ab:
         r.fail(f"eq:same-value-unequal:{t}:{min(la, lb)}~{max(la, lb)}", f"{what}: same value by construction but a != b")
-    if not same and e_ab:
+    if not free and not same and e_ab:
         r.fail(f"eq:different-values-equal:{t}:{min(la, lb)}~{max(la, lb)}", f"{what}: values differ in one field but a == b")
     ha, hb = _hash(a), _hash(b)
     if e_ab and ha is not None and hb is not None and ha != hb:
